@@ -566,6 +566,7 @@ func alwaysMakesError(call *ssa.Call, depth int) bool {
 func checkMountBuilder(c *Check) {
 	p := c.P
 	MS := func(n string) int64 { return p.Unix("MS_" + n) }
+	pathVals := map[*ssa.Function][]*absVal{}
 	flagsOf := func(fn *ssa.Function, seedBool *bool) (vals []int64, fstype []string) {
 		w := &walker{fn: fn}
 		w.Seed = func(w *walker, st *wstate, v ssa.Value) *absVal {
@@ -616,6 +617,11 @@ func checkMountBuilder(c *Check) {
 			if f := el.fields["FsType"]; f != nil {
 				fstype = append(fstype, f.String())
 			}
+			for _, fld := range []string{"Source", "Target"} {
+				if f := el.fields[fld]; f != nil {
+					pathVals[fn] = append(pathVals[fn], f)
+				}
+			}
 		}
 		w.Run()
 		return
@@ -649,6 +655,31 @@ func checkMountBuilder(c *Check) {
 		v := vals[0]
 		c.Cond(v&t.need == t.need && v&t.deny == 0, "3/builder-flags", key, p.Pos(fn.Pos()), fmt.Sprintf("%s flags %#x", t.what, v),
 			fmt.Sprintf("%s flags %#x (missing %#x, forbidden %#x)", t.what, v, t.need&^v, v&t.deny))
+	}
+	// the paths of an entry are the caller's strings as given (or constants): a lexical rewrite (Clean, Join, Abs)
+	// names another object than the kernel resolves for the original spelling when a component is a symbolic link
+	for _, name := range []string{"Builder.WithBind", "Builder.WithTmpfs", "Builder.WithProcRW"} {
+		fn := p.Func("pkg/mount", name)
+		if fn == nil {
+			continue
+		}
+		if _, seen := pathVals[fn]; !seen {
+			flagsOf(fn, &tr)
+		}
+		bad := ""
+		for _, v := range pathVals[fn] {
+			switch {
+			case v.k == avConst:
+			case v.k == avSym && v.sym != nil:
+				if _, isPar := stripConv(v.sym).(*ssa.Parameter); !isPar {
+					bad = describe(v.sym)
+				}
+			default:
+				bad = v.String()
+			}
+		}
+		c.Cond(bad == "" && len(pathVals[fn]) > 0, "3/builder-flags", "pkg/mount."+name+":paths-as-given", p.Pos(fn.Pos()), "source and target are the caller's strings unmodified (or constants)",
+			"the entry's source/target is "+bad+", not the parameter as given: a lexically rewritten path can name a different object than the one declared")
 	}
 	// WithProc = WithProcRW(false)
 	if fn := p.Func("pkg/mount", "Builder.WithProc"); fn != nil {
